@@ -268,6 +268,14 @@ class AttrList(list):
     """list subclass whose instances also carry attributes"""
 
 
+class AttrDict2(AttrDict):
+    """a subclass of a dict subclass (no registered type among its direct bases)"""
+
+
+class AttrList2(AttrList):
+    """a subclass of a list subclass"""
+
+
 def _attr_holders():
     d = AttrDict({'x': 'item-x', 'y': 'item-y'})
     d.x, d.only_attr = 'attr-x', 'attr-only'
